@@ -1,10 +1,11 @@
 CONSTANTS
   N = 2
   AMax = 2
+  AMaxCG = 3
   KMax = 2
   Wide = FALSE
-  BsBound = 40
-  Methods = {"cg", "bicgstab.left", "bicgstab.right", "richardson", "richardson.half", "gmres.left.1", "gmres.right.1", "gmres.left.K", "gmres.right.K"}
+  BsBound = 20
+  Methods = {"cg", "bicgstab.left", "bicgstab.right", "richardson", "richardson.half", "gmres.left.K", "gmres.right.1"}
 INIT Init
 NEXT Next
 INVARIANTS ProgMatchesRef TerminatesAtN CarriedResidual GmresMonotone
